@@ -203,6 +203,24 @@ def rule_commute(rep, crate):
                 other -= {'types'}
             if other:
                 rep.viol(rid, 'commute:%s:%s<-%s' % (what, f, ','.join(sorted(other))), 'in %s the new value of %s.%s depends on %s.%s, which another argument/item sets: the result depends on their order' % (name, what, f, what, sorted(other)), loc(fn, line))
+        # private helpers that receive the whole receiver (`self.push_skip(..)`): what they do (a store or a recorded error) must
+        # not depend on a field that another argument / item sets — the handler rule above does not see into them
+        done = set()
+        for _b, t in fn.calls():
+            g = crate.fns.get(fn.callee_name(t))
+            if g is None or g.name in done or not t['args']:
+                continue
+            r0 = trace(fn, t['args'][0])
+            if not (r0[0] == 'param' and r0[1] == 1 and not [p for p in r0[2] if p['k'] != 'deref']):
+                continue
+            done.add(g.name)
+            rd, wr = self_effects(crate, g)
+            rep.inst(rid, '%s:helper:%s' % (what, g.name.split('::')[-1]), detail=dict(reads=sorted(rd), writes=sorted(wr)))
+            other = rd - wr - EXEMPT
+            if what == 'Parser':
+                other -= {'types'} if 'types' in wr else set()
+            if other and wr:
+                rep.viol(rid, 'commute:%s:helper:%s<-%s' % (what, g.name.split('::')[-1], ','.join(sorted(other))), '%s (called from %s with the whole receiver) reads %s.%s and writes %s: what this item leaves behind (a value or a recorded error) depends on a field that another argument/item sets, i.e. on their order' % (g.name, name, what, sorted(other), sorted(wr)), loc(g))
     # TypeParams handlers reachable from try_parse_logos
     tp = crate.fns.get('parser::Parser::try_parse_logos')
     if tp is not None:
